@@ -66,6 +66,14 @@ def body(case, rec):
         if not out and rx.embedding_count_exceeds(_pattern(reactor), reactor.graph.raw, 5000):
             rec.label("skip:above-embedding-threshold")
             return
+        # attribution: does gluing every raw SubgraphSearchEngine match recover the reaction?
+        rawr, _, raw = rx.raw_reactor(substrate, rx.template_graph(rsmi, kind), invert, strategy, style)
+        if want in rx.key_set(rawr.smarts_list):
+            raise Violation(
+                "own-template-miss:pruning",
+                f"corpus[{case['rxn']}] ({src}, {style}) {kind} {'backward' if invert else 'forward'} {strategy}: the reaction is produced by one of the "
+                f"{len(raw)} raw matches but lost when they are pruned to {nmatch}; id={reaction_id(rsmi0)}",
+            )
         raise Violation(
             "own-template-miss",
             f"corpus[{case['rxn']}] ({src}, {style}) {kind} {'backward' if invert else 'forward'} {strategy}: "
